@@ -51,7 +51,7 @@ def _num(v, kind):
 def _operand(spec, plain, values, style, numkind):
     """values: list of [n,d] (one element: scalar).
     style text / dict: the operand is written down; derived: it is the RESULT of earlier arithmetic whose unit exponents add up
-    to the intended ones (q * u**(1,2) * u**(1,2) / u with u = 1 <units>); reused: written down, then used (see _reuse)."""
+    to the intended ones ((q / h) * h with h = (1 <units>)**(1,2)); reused: written down, then used (see _reuse)."""
     if plain:
         if len(values) == 1:
             return _num(values[0], "py" if numkind == "py" else "npscalar")
@@ -63,9 +63,8 @@ def _operand(spec, plain, values, style, numkind):
         val = [v[0] / v[1] for v in values] if style != "dict" else np.array([v[0] / v[1] for v in values])
     q = A.make_quantity(val, spec["ex"], style="dict" if style == "dict" else "text")
     if style == "derived" and spec["ex"]:
-        one = A.make_quantity(1, spec["ex"], style="text")
         half = A.make_quantity(1, spec["ex"], style="dict") ** (1, 2)
-        q = q * half * half / one
+        q = (q / half) * half
     return q
 
 
@@ -153,11 +152,14 @@ def run_case(case):
         except (ZeroDivisionError, OverflowError):
             return ("unspecified", None)
     try:
-        a = _operand(r0["a"], r0["side"] == "nq", [r["a"]["v"] for r in recs], style, numkind)
+        # derived: the left operand is a result of earlier arithmetic, derived_b: the right one (the other is written down)
+        sa = "text" if style == "derived_b" else style
+        sb = "derived" if style == "derived_b" else ("text" if style == "derived" else style)
+        a = _operand(r0["a"], r0["side"] == "nq", [r["a"]["v"] for r in recs], sa, numkind)
         bvals = [r["b"]["v"] for r in recs]
         if case.get("bscalar"):
             bvals = bvals[:1]
-        b = _operand(r0["b"], r0["side"] == "qn", bvals, style, numkind) \
+        b = _operand(r0["b"], r0["side"] == "qn", bvals, sb, numkind) \
             if r0["op"] in ("add", "sub", "mul", "div", "np.linspace", "np.logspace") else None
     except Exception as e:
         return ("fail", dict(clause="operands can be constructed", failure="construction_failed", tags=tags,
@@ -253,8 +255,12 @@ def shape_key(r):
 def cases_from_records(recs, rnd, arrays=True):
     cases = []
     for r in recs:
-        for style in ("text", "dict", "derived", "reused"):
+        for style in ("text", "dict", "derived", "derived_b", "reused"):
             if style != "text" and not r["a"]["ex"] and not r["b"]["ex"]:
+                continue
+            if style in ("derived", "derived_b", "reused") and r["cls"] == "unspecified":
+                continue
+            if (style == "derived" and not r["a"]["ex"]) or (style == "derived_b" and not (r["b"]["ex"] and r["side"] == "qq")):
                 continue
             cases.append(dict(recs=[r], style=style))
     if arrays:
